@@ -1,6 +1,6 @@
 SPECIFICATION Spec
 CONSTANTS
   DoExport = TRUE
-  EnvNames = {"A", "B", "a"}
+  EnvNames = {"A", "B", "a", "env::A"}
 INVARIANTS InvInjective Export
 CHECK_DEADLOCK FALSE
